@@ -200,6 +200,15 @@ func driveC13(seed int64, tier, out, replay string) {
 		}, handShapes...) {
 			cases = append(cases, c13Case{Domain: "hand", OpSeed: int64(i), Op: &gen.GenOp{Query: q, Kind: "query", Features: []string{"hand_shape"}}, Perturb: rng.Int63()})
 		}
+		// several variables in one sub-request header whose names differ in letter case only: the header order must not
+		// depend on map iteration
+		for i, q := range []string{
+			`query($a: Int, $A: Int) { me { name(a: $a) friend { name(a: $A) } } }`,
+			`query($first: Int, $First: Int, $after: Int) { me { name(a: $first) friend { name(a: $First) friend { name(a: $after) } } } }`,
+		} {
+			cases = append(cases, c13Case{Domain: "hand", OpSeed: int64(900 + i), Op: &gen.GenOp{Query: q, Kind: "query", Features: []string{"hand_shape", "variables_differing_in_case"},
+				Variables: map[string]interface{}{"a": 1, "A": 2, "first": 1, "First": 2, "after": 3}}, Perturb: int64(77 + i)})
+		}
 	}
 	// listed findings: an operation on the hand-written federation whose answers differ between sends
 	if hand, err := NewRig(handWorld(), RigConfig{}); err == nil {
